@@ -458,6 +458,9 @@ impl<T: ObjectStore> ObjectStore for MetaStore<T> {
         let mut retried = false;
         loop {
             let meta = self.inner.get_meta(location).await?;
+            // A range that ends past the object is served up to the end,
+            // as `get_opts` and the reference stores do.
+            let ranges = &clamp_ranges(ranges, meta.size);
             validate_ranges("MetaStore", ranges, meta.size)?;
 
             let payload_path = self
@@ -786,6 +789,11 @@ fn check_get_preconditions(
     }
 
     Ok(())
+}
+
+/// Clamps the end of every range to the object length.
+pub(crate) fn clamp_ranges(ranges: &[Range<u64>], len: u64) -> Vec<Range<u64>> {
+    ranges.iter().map(|r| r.start..r.end.min(len)).collect()
 }
 
 pub(crate) fn validate_ranges(store: &'static str, ranges: &[Range<u64>], len: u64) -> Result<()> {
